@@ -100,3 +100,12 @@ Theorem C12_bounds_strsort_variant_refuted :
     ~ (forall k v, In (k, v) (spec_of h) -> lo <= k <= hi).
 Proof. exact bounds_strsort_refuted. Qed.
 Print Assumptions C12_bounds_strsort_variant_refuted.
+
+(* ---- T17: the sources this property rests on keep no state outside the objects the model has (no static locals
+   or mutable globals in C, no class-level / module-level containers, `global` rebinding or cache decorators in
+   Python): the list of such sites, regenerated from the sources on every run, is empty *)
+From Coq Require Import String List.
+From DRF Require Import Gen.StateSites Proofs.StateSitesProofs.
+Theorem C12_no_state_outside_the_modelled_objects : state_sites_metadata = @nil string /\ state_sites_listing = @nil string.
+Proof. repeat split; first [exact no_state_outside_objects_metadata | exact no_state_outside_objects_listing]. Qed.
+Print Assumptions C12_no_state_outside_the_modelled_objects.
